@@ -37,6 +37,12 @@ import GeoProofs.Lemmas.RELMTotal5
 import GeoProofs.Lemmas.RELM2Dom
 import GeoProofs.Lemmas.RELM2Disjoint
 import GeoProofs.Lemmas.RELM2Ring
+import GeoProofs.Lemmas.RELM3Areal
+import GeoProofs.Lemmas.RELM3Full
+import GeoProofs.Lemmas.RELM3ArealFull
+import GeoProofs.Lemmas.RELM3MPoly
+import GeoProofs.Lemmas.RELM3PointMP
+import GeoProofs.Lemmas.RELM3LineLine
 import Mathlib.Tactic.NormNum
 
 namespace Geo.Proofs.C01
@@ -780,7 +786,8 @@ theorem dimsSpec_triangle_witness_ie :
 
 /-- [T] Polygon of dimension two, given an interior face sample.
 Full statement: `DimsSpec (.polygon q)` for every valid polygon — needs S2 (a valid polygon has a face
-sample of the arrangement in its interior). -/
+sample of the arrangement in its interior); proved since: `polygon_interior_sample_valid`,
+`dimsSpec_dom_noCollection_partial` (section Impl3 below). -/
 theorem dimsSpec_polygon_partial (q : Poly) (hd : polyDims q = .two)
     (hi : Spec.HasInteriorSample (parts (.polygon q))) : Spec.DimsSpec (.polygon q) :=
   Spec.dimsSpec_polygon_partial q hd hi
@@ -1457,6 +1464,8 @@ path): for `B` a Point, MultiPoint, Line, Polygon (holes touching the shell incl
 at points included), Rect or Triangle of the domain, `relate(Point p, B)` has the specification's rows — whether `p`
 is a node of `B`'s graph (ring start, line end, touch point) or not. `coordinate_position = locate` is C02
 `coordPos_eq_locate_dom_partial`, whose K9 exclusion is vacuous for these types.
+(Superseded by `relateImpl_point_rows_eq_spec_allTypes_partial` and `relateImpl_point_eq_spec_noCollection_partial`
+in section Impl3, which cover the cases called open here.)
 Full statement (every `B` of the domain, `noK9 p B`): open for LineString, MultiLineString and GeometryCollection —
 needs: self-noding of a simple line string records nothing (adjacent segments are trivial intersections, others
 disjoint), the mod-2 node labels of C17 `nodeOn_addLineStrings` tied to the specification's end point count, and for
@@ -1508,7 +1517,8 @@ of the implementation returns the specification's matrix wherever `HasDimensions
 hypotheses `CoordsInBox` (hole coordinates lie in the shell's box) and `ClosedExt` of `relateImpl_disjoint_eq_spec_partial`
 are discharged from validity (C02X `dom_facts`: `BE = F` of every hole against the shell, closed rings, `min ≤ max`).
 Full statement (no `DimsSpec` hypotheses): needs `DimsSpec` for valid polygons with holes — an interior face sample,
-S2-type, `dimsSpec_polygon_partial` — and for collections (not covered by `DimsSpec`). -/
+S2-type, `dimsSpec_polygon_partial`; proved since for every non-collection operand:
+`relateImpl_disjoint_eq_spec_noCollection_partial` in section Impl3 — and for collections (not covered by `DimsSpec`). -/
 theorem relateImpl_disjoint_eq_spec_dom_partial (ar : Arith) {a b : Geom} (ha : inDomain a = true) (hb : inDomain b = true)
     (h : envelopesMeet a b = false) (da : Spec.DimsSpec a) (db : Spec.DimsSpec b) :
     relateImplWith ar a b = some (relateSpec a b) :=
@@ -1572,5 +1582,714 @@ example : ∀ m, relateGraph Arith.exact (.point ⟨0, 0⟩) (.lineString [⟨0,
   fun m h => relateImpl_point_rows_eq_spec_closedLineString _ _ _ rfl (by decide) h _ _ (by decide)
 
 end Impl2
+
+/-! ## RELM3: LineString, MultiLineString (shared end points included) and collections of linear / point members -/
+
+section Impl3
+open Geo.RI Geo.GG Geo.Proofs.RELM Geo.Proofs.RELM2 Geo.Proofs.RELM3
+
+/-- [T] **self-noding of a simple open line string records nothing** (any arithmetic; `check_for_self_intersecting_edges`
+on or off): consecutive segments meet in one point, which `is_trivial_intersection` discards; every other pair of
+segments has `line_intersection = None` (`lineStringSimple`; `li_symm` for the pairs visited in the other order). -/
+theorem selfNoding_simple_lineString_records_nothing (ar : Arith) (idx : Nat) (cs : List Pt)
+    (hs : lineStringSimple cs = true) (hop : isClosedLS cs = false) :
+    ∀ e ∈ (freshGraph ar idx (.lineString cs)).edges, e.eis = [] :=
+  fresh_openLineString_no_eis ar idx cs hs hop
+
+/-- an open path with a right-angle turn -/
+example : ∀ e ∈ (freshGraph Arith.exact 1 (.lineString [⟨0, 0⟩, ⟨4, 0⟩, ⟨4, 3⟩, ⟨1, 3⟩])).edges, e.eis = [] :=
+  selfNoding_simple_lineString_records_nothing _ _ _ (by decide +kernel) (by decide +kernel)
+
+/-- [T] **the node map of one operand has pairwise distinct coordinates** for a MultiLineString (so C17's `mod2_rule`,
+stated for "the node at `p`", speaks about every node with that coordinate). -/
+theorem impl_mls_node_coordinates_distinct (idx : Nat) (ls : List (List Pt)) :
+    ((buildGraph idx (.multiLineString ls)).nodes.map (·.coord)).Nodup := by
+  rw [buildGraph_mls_nodes]
+  exact (ninv_addLineStrings ls (ninv_nil idx)).1
+
+/-- [T] **the nodes of the self-noded graph of a linear operand carry the specification's location** (exact arithmetic):
+LineString, MultiLineString, Line and collections of them, of the validity domain — for a MultiLineString whatever the
+way its members meet: at a common end point of several members the node has the mod-2 label (C17 `mod2_rule`), and the
+end-point count of the specification has the same parity (a closed member counts 0 there, 2 in the graph); the
+intersections self-noding records (valid records of their edges) are re-labelled / inserted `Inside` only where they
+are not boundary nodes, and every end point is a node already. -/
+theorem impl_nodes_carry_locate_linear (b : Geom) (hd : inDomain b = true) (hl : linOk b = true) :
+    NodesLocate Arith.exact b ∧ EisAreNodes Arith.exact b :=
+  ⟨nodesLocate_linear (linearAs_of_linOk b hd hl), eisAreNodes_linear _ (linearAs_of_linOk b hd hl)⟩
+
+/-- three line strings ending at (1, 0) (a K9 point: `coordinate_position` answers `Inside` there, the graph and the
+specification `OnBoundary`) and one crossing them -/
+example : NodesLocate Arith.exact (.multiLineString [[⟨0, 0⟩, ⟨1, 0⟩], [⟨1, 0⟩, ⟨1, 1⟩], [⟨1, 0⟩, ⟨2, 0⟩]]) :=
+  (impl_nodes_carry_locate_linear _ (by decide +kernel) rfl).1
+
+/-- [T] **Point × B on the validity domain, rows Interior and Boundary, at EVERY point, for every type of `B`** (exact
+arithmetic, graph path): Point, MultiPoint, Line, LineString (open or closed), MultiLineString, Polygon, MultiPolygon,
+Rect, Triangle, and the GeometryCollections all of whose members (recursively) are of one kind: point-like, linear,
+or areal (`pointRowsOk5`; areal members: the `OnBoundary`-nodes-on-rings invariant passes through `add_geometry`, and a
+ring point of one member is not strictly inside another — `collectionOk` makes the cells II, IB, BI, BB of every pair
+`F`, while C02X `cell_of_located` makes the cell of the two locations of a common arrangement point non-`F`).  No `nodeTypeOk`, no `noK9`: at a common end point of several members of a MultiLineString —
+where `coordinate_position` is not the specification's location (open finding K9) — `relate` does not ask
+`coordinate_position`, the point is a node of the graph and carries the mod-2 label.
+Full statement (every `B` of the domain): open only for collections mixing kinds — possible in the domain only with
+EMPTY members of another kind (an empty LineString inside a collection of polygons …), which add nothing to the graph
+but a degenerate entry to the specification's parts. -/
+theorem relateImpl_point_rows_eq_spec_allTypes_partial (p : Pt) (b : Geom) (hd : inDomain b = true)
+    (ht : pointRowsOk5 b = true) {m : IM} (h : relateGraph Arith.exact (.point p) b = some m)
+    (X Y : Pos) (hX : X ≠ .outside) : m.get X Y = (relateSpec (.point p) b).get X Y :=
+  point_rows_eq_spec_dom5 p b hd ht h X Y hX
+
+/-- the common end point of three members of a MultiLineString (K9 point), against it -/
+example : ∀ m, relateGraph Arith.exact (.point ⟨1, 0⟩)
+      (.multiLineString [[⟨0, 0⟩, ⟨1, 0⟩], [⟨1, 0⟩, ⟨1, 1⟩], [⟨1, 0⟩, ⟨2, 0⟩]]) = some m →
+    ∀ Y, m.get .inside Y = (relateSpec (.point ⟨1, 0⟩)
+      (.multiLineString [[⟨0, 0⟩, ⟨1, 0⟩], [⟨1, 0⟩, ⟨1, 1⟩], [⟨1, 0⟩, ⟨2, 0⟩]])).get .inside Y :=
+  fun m h Y => relateImpl_point_rows_eq_spec_allTypes_partial _ _ (by decide +kernel) rfl h _ Y (by decide)
+
+/-- the end point of an open line string; a collection of a segment and a line string -/
+example : ∀ m, relateGraph Arith.exact (.point ⟨1, 3⟩) (.lineString [⟨0, 0⟩, ⟨4, 0⟩, ⟨4, 3⟩, ⟨1, 3⟩]) = some m →
+    m.get .inside .onBoundary = (relateSpec (.point ⟨1, 3⟩) (.lineString [⟨0, 0⟩, ⟨4, 0⟩, ⟨4, 3⟩, ⟨1, 3⟩])).get .inside .onBoundary :=
+  fun m h => relateImpl_point_rows_eq_spec_allTypes_partial _ _ (by decide +kernel) rfl h _ _ (by decide)
+
+example : ∀ m, relateGraph Arith.exact (.point ⟨4, 0⟩)
+      (.collection [.line ⟨0, 0⟩ ⟨4, 0⟩, .lineString [⟨5, 0⟩, ⟨5, 3⟩, ⟨6, 3⟩]]) = some m →
+    m.get .inside .onBoundary = (relateSpec (.point ⟨4, 0⟩)
+      (.collection [.line ⟨0, 0⟩ ⟨4, 0⟩, .lineString [⟨5, 0⟩, ⟨5, 3⟩, ⟨6, 3⟩]])).get .inside .onBoundary :=
+  fun m h => relateImpl_point_rows_eq_spec_allTypes_partial _ _ (by decide +kernel) rfl h _ _ (by decide)
+
+/-- a collection of a triangle and a polygon with a hole, against the start vertex of the hole -/
+example : ∀ m, relateGraph Arith.exact (.point ⟨11, 1⟩)
+      (.collection [.triangle ⟨0, 0⟩ ⟨4, 0⟩ ⟨0, 4⟩,
+        .polygon ⟨[⟨10, 0⟩, ⟨14, 0⟩, ⟨14, 4⟩, ⟨10, 4⟩, ⟨10, 0⟩], [[⟨11, 1⟩, ⟨12, 1⟩, ⟨12, 2⟩, ⟨11, 1⟩]]⟩]) = some m →
+    m.get .inside .onBoundary = (relateSpec (.point ⟨11, 1⟩)
+      (.collection [.triangle ⟨0, 0⟩ ⟨4, 0⟩ ⟨0, 4⟩,
+        .polygon ⟨[⟨10, 0⟩, ⟨14, 0⟩, ⟨14, 4⟩, ⟨10, 4⟩, ⟨10, 0⟩], [[⟨11, 1⟩, ⟨12, 1⟩, ⟨12, 2⟩, ⟨11, 1⟩]]⟩])).get .inside .onBoundary :=
+  fun m h => relateImpl_point_rows_eq_spec_allTypes_partial _ _ (by decide +kernel) rfl h _ _ (by decide)
+
+/-- [T] **a ring point of an areal operand of the domain — a GeometryCollection of pairwise disjoint areal members
+included — is located `OnBoundary` by the specification**, and the nodes of its self-noded graph carry that location. -/
+theorem impl_nodes_carry_locate_arealCollection (b : Geom) (hd : inDomain b = true) (ha : arOk b = true) :
+    (∀ c, OnRings (ringsOf b) c → locate b c = .onBoundary) ∧ NodesLocate Arith.exact b ∧ EisAreNodes Arith.exact b :=
+  ⟨locate_onRings_coll b hd ha, nodesLocate_arealColl b hd ha⟩
+
+example : NodesLocate Arith.exact (.collection [.triangle ⟨0, 0⟩ ⟨4, 0⟩ ⟨0, 4⟩, .rect ⟨10, 0⟩ ⟨14, 4⟩]) :=
+  (impl_nodes_carry_locate_arealCollection _ (by decide +kernel) rfl).2.1
+
+/-- [T] … **and B × Point, columns Interior and Boundary**, through the two transpose laws. Same open cases. -/
+theorem relateImpl_point_cols_eq_spec_allTypes_partial (p : Pt) (b : Geom) (hd : inDomain b = true)
+    (ht : pointRowsOk5 b = true) (hz : noZeroLine b = true) (henv : envelopesMeet (.point p) b = true) {m : IM}
+    (h : relateImpl? b (.point p) = some m) (X Y : Pos) (hY : Y ≠ .outside) :
+    m.get X Y = (relateSpec b (.point p)).get X Y := by
+  rw [relateImpl_transpose (.point p) b rfl hz] at h
+  cases h' : relateImpl? (.point p) b with
+  | none => rw [h'] at h; cases h
+  | some m' =>
+    rw [h'] at h
+    simp only [Option.map_some, Option.some.injEq] at h
+    subst h
+    have hg : relateGraph Arith.exact (.point p) b = some m' := by
+      unfold relateImpl? relateImplWith at h'
+      rw [henv, if_pos rfl] at h'
+      exact h'
+    rw [transpose_get, relateImpl_point_rows_eq_spec_allTypes_partial p b hd ht hg Y X hY, relateSpec_transpose (.point p) b,
+      transpose_get]
+
+/-- a MultiLineString against the common end point of its members -/
+example : ∀ m, relateImpl? (.multiLineString [[⟨0, 0⟩, ⟨1, 0⟩], [⟨1, 0⟩, ⟨1, 1⟩], [⟨1, 0⟩, ⟨2, 0⟩]]) (.point ⟨1, 0⟩) = some m →
+    m.get .onBoundary .inside =
+      (relateSpec (.multiLineString [[⟨0, 0⟩, ⟨1, 0⟩], [⟨1, 0⟩, ⟨1, 1⟩], [⟨1, 0⟩, ⟨2, 0⟩]]) (.point ⟨1, 0⟩)).get .onBoundary .inside :=
+  fun m h => relateImpl_point_cols_eq_spec_allTypes_partial _ _ (by decide +kernel) rfl rfl (by decide +kernel) h _ _ (by decide)
+
+/-- [T] … **on both paths of `compute_intersection_matrix`** (`DimsSpec B` for the shortcut path, as in
+`relateImpl_point_rows_eq_spec_both_paths_partial`). -/
+theorem relateImpl_point_rows_eq_spec_allTypes_both_paths_partial (p : Pt) (b : Geom) (hd : inDomain b = true)
+    (ht : pointRowsOk5 b = true) (db : Spec.DimsSpec b) {m : IM} (h : relateImpl? (.point p) b = some m)
+    (X Y : Pos) (hX : X ≠ .outside) : m.get X Y = (relateSpec (.point p) b).get X Y := by
+  cases henv : envelopesMeet (.point p) b with
+  | true =>
+    have hg : relateGraph Arith.exact (.point p) b = some m := by
+      unfold relateImpl? relateImplWith at h
+      rw [henv, if_pos rfl] at h
+      exact h
+    exact relateImpl_point_rows_eq_spec_allTypes_partial p b hd ht hg X Y hX
+  | false =>
+    have := relateImpl_disjoint_eq_spec_dom_partial Arith.exact (a := .point p) (b := b) rfl hd henv (dimsSpec_point p) db
+    unfold relateImpl? at h
+    rw [this] at h
+    rw [← Option.some.inj h]
+
+/-- a point far from / at the end of an open line string -/
+example : ∀ m, relateImpl? (.point ⟨9, 9⟩) (.lineString [⟨0, 0⟩, ⟨4, 0⟩, ⟨4, 3⟩]) = some m →
+    m.get .inside .outside = (relateSpec (.point ⟨9, 9⟩) (.lineString [⟨0, 0⟩, ⟨4, 0⟩, ⟨4, 3⟩])).get .inside .outside :=
+  fun m h => relateImpl_point_rows_eq_spec_allTypes_both_paths_partial _ _ (by decide +kernel) rfl
+    (dimsSpec_lineString _ (by decide)) h _ _ (by decide)
+
+/-- Point, MultiPoint, Line, LineString, MultiLineString, Rect, Triangle -/
+def noPolygonType : Geom → Bool
+  | .polygon _ | .multiPolygon _ | .collection _ => false
+  | _ => true
+
+/-- [T] **`HasDimensions` = the specification's row maxima (`DimsSpec`) for every operand of the validity domain that
+is not a Polygon, MultiPolygon or GeometryCollection** — the hypotheses of the per-type theorems above (`hlen`, `hx`,
+`hy`, `hD`) follow from validity. Full statement (every operand of the domain): needs an interior face sample of a
+valid polygon (S2 type, `dimsSpec_polygon_partial`), and `DimsSpec` for collections. -/
+theorem dimsSpec_dom_partial (b : Geom) (hd : inDomain b = true) (ht : noPolygonType b = true) : Spec.DimsSpec b := by
+  cases b with
+  | point q => exact dimsSpec_point q
+  | multiPoint qs => exact dimsSpec_multiPoint qs
+  | line a b => exact dimsSpec_line a b
+  | lineString cs =>
+    apply dimsSpec_lineString
+    rcases Geo.Proofs.C02X.lineString_dom_length hd with rfl | h
+    · simp
+    · omega
+  | multiLineString ls =>
+    apply dimsSpec_multiLineString
+    intro l hl
+    have := long_length (long_of_mls_dom hd l hl)
+    omega
+  | rect mn mx =>
+    have h : mn.x < mx.x ∧ mn.y < mx.y := by simpa [inDomain, validGeom] using hd
+    exact dimsSpec_rect mn mx h.1 h.2
+  | triangle a b c =>
+    have h : orient a b c ≠ .col := by simpa [inDomain, validGeom] using hd
+    exact dimsSpec_triangle a b c (fun e => h ((Geo.Proofs.Kernel.orient_col_iff a b c).2 e))
+  | polygon _ => cases ht
+  | multiPolygon _ => cases ht
+  | collection _ => cases ht
+
+example : Spec.DimsSpec (.multiLineString [[⟨0, 0⟩, ⟨1, 0⟩], [⟨1, 0⟩, ⟨1, 1⟩], [⟨1, 0⟩, ⟨2, 0⟩]]) :=
+  dimsSpec_dom_partial _ (by decide +kernel) rfl
+
+/-- [T] **the disjoint-envelope shortcut returns the specification's matrix — the whole matrix, no `DimsSpec`
+hypothesis — for operands of the domain without polygonal members** (any arithmetic). -/
+theorem relateImpl_disjoint_eq_spec_noPolygon_partial (ar : Arith) {a b : Geom} (ha : inDomain a = true)
+    (hb : inDomain b = true) (hta : noPolygonType a = true) (htb : noPolygonType b = true)
+    (h : envelopesMeet a b = false) : relateImplWith ar a b = some (relateSpec a b) :=
+  relateImpl_disjoint_eq_spec_dom_partial ar ha hb h (dimsSpec_dom_partial a ha hta) (dimsSpec_dom_partial b hb htb)
+
+/-- an open line string and a far triangle: the whole matrix -/
+example : relateImpl? (.lineString [⟨0, 0⟩, ⟨4, 0⟩, ⟨4, 3⟩]) (.triangle ⟨6, 0⟩ ⟨8, 0⟩ ⟨6, 3⟩) =
+    some (relateSpec (.lineString [⟨0, 0⟩, ⟨4, 0⟩, ⟨4, 3⟩]) (.triangle ⟨6, 0⟩ ⟨8, 0⟩ ⟨6, 3⟩)) :=
+  relateImpl_disjoint_eq_spec_noPolygon_partial _ (by decide +kernel) (by decide +kernel) rfl rfl (by decide +kernel)
+
+/-- [T] **Point × B, rows Interior and Boundary, on BOTH paths of `compute_intersection_matrix`, without any further
+hypothesis**, for `B` a Point, MultiPoint, Line, LineString, MultiLineString, Rect or Triangle of the domain: whatever
+`relate(Point p, B)` returns has the specification's rows. -/
+theorem relateImpl_point_rows_eq_spec_noPolygon_partial (p : Pt) (b : Geom) (hd : inDomain b = true)
+    (ht : noPolygonType b = true) {m : IM} (h : relateImpl? (.point p) b = some m)
+    (X Y : Pos) (hX : X ≠ .outside) : m.get X Y = (relateSpec (.point p) b).get X Y :=
+  relateImpl_point_rows_eq_spec_allTypes_both_paths_partial p b hd
+    (by cases b <;> first | rfl | cases ht) (dimsSpec_dom_partial b hd ht) h X Y hX
+
+/-- a point at the common end point of three line strings, and far from them -/
+example : ∀ m, relateImpl? (.point ⟨1, 0⟩) (.multiLineString [[⟨0, 0⟩, ⟨1, 0⟩], [⟨1, 0⟩, ⟨1, 1⟩], [⟨1, 0⟩, ⟨2, 0⟩]]) = some m →
+    m.get .inside .onBoundary =
+      (relateSpec (.point ⟨1, 0⟩) (.multiLineString [[⟨0, 0⟩, ⟨1, 0⟩], [⟨1, 0⟩, ⟨1, 1⟩], [⟨1, 0⟩, ⟨2, 0⟩]])).get .inside .onBoundary :=
+  fun m h => relateImpl_point_rows_eq_spec_noPolygon_partial _ _ (by decide +kernel) rfl h _ _ (by decide)
+
+example : ∀ m, relateImpl? (.point ⟨7, 7⟩) (.multiLineString [[⟨0, 0⟩, ⟨1, 0⟩], [⟨1, 0⟩, ⟨1, 1⟩], [⟨1, 0⟩, ⟨2, 0⟩]]) = some m →
+    m.get .inside .outside =
+      (relateSpec (.point ⟨7, 7⟩) (.multiLineString [[⟨0, 0⟩, ⟨1, 0⟩], [⟨1, 0⟩, ⟨1, 1⟩], [⟨1, 0⟩, ⟨2, 0⟩]])).get .inside .outside :=
+  fun m h => relateImpl_point_rows_eq_spec_noPolygon_partial _ _ (by decide +kernel) rfl h _ _ (by decide)
+
+/-! ### the Exterior row: `relate(Point, B) = relateSpec`, the whole matrix, for linear `B` -/
+
+/-- [T] **self-noding does not touch `is_isolated`**; the point has no edge, so every edge of `B` is labelled as an
+isolated edge, `Outside` of the point. -/
+theorem selfNoded_edges_isolated (ar : Arith) (idx : Nat) (g : Geom) :
+    ∀ e ∈ (freshGraph ar idx g).edges, e.isolated = true := fresh_edges_isolated ar idx g
+
+example : ∀ e ∈ (freshGraph Arith.exact 1 (.lineString [⟨0, 0⟩, ⟨2, 2⟩, ⟨2, 0⟩, ⟨0, 2⟩])).edges, e.isolated = true :=
+  selfNoded_edges_isolated _ _ _
+
+/-- [T] **the Exterior row of `relate(Point p, B)` in the model of the implementation, for a `B` all of whose edges
+are line edges** (any arithmetic; `B` valid or not): `EI = 1` as soon as `B` has an edge — every edge is isolated from
+the point and contributes (1, Exterior, Interior); every bundle of every star is labelled `Inside` in `B`'s slot
+(`compute_label_on`: no boundary edge end, an interior one), nothing to propagate, no collapse — and `EB ≥ d` iff
+`d = F`, or `d = 0` and the self-noded graph of `B` has an `OnBoundary` node away from `p` (`copy_nodes_and_labels` is
+the only step that writes `OnBoundary` into `B`'s slot; `label_isolated_nodes` writes `B`'s slot only at `p`). -/
+theorem relateImpl_point_exterior_row_lineEdges (ar : Arith) (p : Pt) (b : Geom)
+    (hE : ∀ e ∈ (freshGraph ar 1 b).edges, e.label = lineLabel 1) (hne : (freshGraph ar 1 b).edges ≠ [])
+    (hdb : (dims b == .two) = false) (hN : NInv 1 (freshGraph ar 1 b).nodes)
+    {m : IM} (h : relateGraph ar (.point p) b = some m) :
+    m.get .outside .inside = .one ∧
+    (∀ d : Dim, d.rank ≤ (m.get .outside .onBoundary).rank ↔
+      d = .empty ∨ (d.rank ≤ Dim.zero.rank ∧
+        ∃ g ∈ (freshGraph ar 1 b).nodes, g.coord ≠ p ∧ g.label.onPos 1 = some .onBoundary)) :=
+  point_ext_row_linear ar p b hE hne hdb hN h
+
+/-- a point beside a segment -/
+example : ∀ m, relateGraph Arith.exact (.point ⟨1, 0⟩) (.line ⟨0, 0⟩ ⟨2, 2⟩) = some m → m.get .outside .inside = .one :=
+  fun m h => (relateImpl_point_exterior_row_lineEdges _ _ _ (by decide +kernel) (by decide +kernel) rfl
+    (ninv_fresh_linear (linearAs_of_linOk _ (by decide +kernel) rfl)) h).1
+
+/-- [T] **the Exterior row of the specification for `Point × linear B`**: `EI = 1` as soon as `B` has a curve with
+two distinct consecutive coordinates; `EB ≥ d` iff `d = F`, or `d = 0` and some point other than `p` is located on the
+boundary of `B`. -/
+theorem relateSpec_point_linear_exterior_row (p : Pt) (ls : List (List Pt)) {l : List Pt} (hl : l ∈ ls) (hlong : Long l) :
+    (relateSpec (.point p) (.multiLineString ls)).get .outside .inside = .one ∧
+    (∀ d : Dim, d.rank ≤ ((relateSpec (.point p) (.multiLineString ls)).get .outside .onBoundary).rank ↔
+      d = .empty ∨ (d.rank ≤ Dim.zero.rank ∧ ∃ v, v ≠ p ∧ locate (.multiLineString ls) v = .onBoundary)) :=
+  spec_ext_row_linear p ls hl hlong
+
+example : (relateSpec (.point ⟨1, 0⟩) (.multiLineString [[⟨0, 0⟩, ⟨2, 2⟩]])).get .outside .inside = .one :=
+  (relateSpec_point_linear_exterior_row _ _ (List.mem_singleton.2 rfl) ⟨⟨0, 0⟩, ⟨2, 2⟩, [], by decide +kernel⟩).1
+
+/-- [T] **`relate(Point p, B) = relateSpec (Point p) B` — the WHOLE matrix — on the graph path, for every linear `B`
+of the domain that has an edge** (Line, LineString, MultiLineString — shared end points and closed members included —
+and collections of them; exact arithmetic). Rows Interior / Boundary: `relateImpl_point_rows_eq_spec_allTypes_partial`;
+Exterior row: the two theorems above, joined by `impl_nodes_carry_locate_linear` (the `OnBoundary` nodes of the graph
+are the points the specification locates on the boundary: every boundary point is an end point, hence a node). -/
+theorem relateImpl_point_linear_graph_eq_spec (p : Pt) (b : Geom) (hd : inDomain b = true) (hl : linOk b = true)
+    (hne : (freshGraph Arith.exact 1 b).edges ≠ []) {m : IM}
+    (h : relateGraph Arith.exact (.point p) b = some m) : m = relateSpec (.point p) b :=
+  point_linear_full p b hd hl hne h
+
+/-- the common end point of three line strings against them: the whole matrix -/
+example : ∀ m, relateGraph Arith.exact (.point ⟨1, 0⟩)
+      (.multiLineString [[⟨0, 0⟩, ⟨1, 0⟩], [⟨1, 0⟩, ⟨1, 1⟩], [⟨1, 0⟩, ⟨2, 0⟩]]) = some m →
+    m = relateSpec (.point ⟨1, 0⟩) (.multiLineString [[⟨0, 0⟩, ⟨1, 0⟩], [⟨1, 0⟩, ⟨1, 1⟩], [⟨1, 0⟩, ⟨2, 0⟩]]) :=
+  fun m h => relateImpl_point_linear_graph_eq_spec _ _ (by decide +kernel) rfl (by decide +kernel) h
+
+/-- [T] **`relate(Point p, B) = relateSpec (Point p) B` for `B` a Line, LineString or MultiLineString of the validity
+domain — whole matrix, both paths of `compute_intersection_matrix`, no further hypothesis**: whatever the model of the
+implementation returns is the specification's matrix. Full statement (every `B` of the domain): the Exterior row is
+open for areal `B` (needs an interior face sample of a valid polygon on the specification side, the side labels of the
+area edges on the implementation side) and for collections (no `DimsSpec` on the shortcut path). -/
+theorem relateImpl_point_lineType_eq_spec_partial (p : Pt) (b : Geom) (hd : inDomain b = true)
+    (ht : lineType b = true) {m : IM} (h : relateImpl? (.point p) b = some m) : m = relateSpec (.point p) b := by
+  cases henv : envelopesMeet (.point p) b with
+  | true =>
+    have hg : relateGraph Arith.exact (.point p) b = some m := by
+      unfold relateImpl? relateImplWith at h
+      rw [henv, if_pos rfl] at h
+      exact h
+    exact point_lineType_graph p b hd ht henv hg
+  | false =>
+    have := relateImpl_disjoint_eq_spec_noPolygon_partial Arith.exact (a := .point p) (b := b) rfl hd rfl
+      (by cases b <;> first | rfl | cases ht) henv
+    unfold relateImpl? at h
+    rw [this] at h
+    exact (Option.some.inj h).symm
+
+/-- a point in the middle of a segment of a closed line string; a point far from it (shortcut path) -/
+example : ∀ m, relateImpl? (.point ⟨2, 0⟩) (.lineString [⟨0, 0⟩, ⟨4, 0⟩, ⟨0, 4⟩, ⟨0, 0⟩]) = some m →
+    m = relateSpec (.point ⟨2, 0⟩) (.lineString [⟨0, 0⟩, ⟨4, 0⟩, ⟨0, 4⟩, ⟨0, 0⟩]) :=
+  fun _ h => relateImpl_point_lineType_eq_spec_partial _ _ (by decide +kernel) rfl h
+
+example : ∀ m, relateImpl? (.point ⟨9, 9⟩) (.lineString [⟨0, 0⟩, ⟨4, 0⟩, ⟨0, 4⟩, ⟨0, 0⟩]) = some m →
+    m = relateSpec (.point ⟨9, 9⟩) (.lineString [⟨0, 0⟩, ⟨4, 0⟩, ⟨0, 4⟩, ⟨0, 0⟩]) :=
+  fun _ h => relateImpl_point_lineType_eq_spec_partial _ _ (by decide +kernel) rfl h
+
+/-- [T] … **and the total function**: `relate` never panics on these operands (`relateImpl_never_panics`), so
+`relateImpl (Point p) B = relateSpec (Point p) B` and, through the two transpose laws, `relateImpl B (Point p) =
+relateSpec B (Point p)`. -/
+theorem relateImpl_point_lineType_eq_spec_total_partial (p : Pt) (b : Geom) (hd : inDomain b = true)
+    (ht : lineType b = true) :
+    relateImpl (.point p) b = relateSpec (.point p) b ∧ relateImpl b (.point p) = relateSpec b (.point p) := by
+  have hz : noZeroLine b = true := by
+    cases b <;> first | rfl | cases ht
+    simpa [inDomain, validGeom, noZeroLine] using hd
+  have hc : ringsClosed b = true := by cases b <;> first | rfl | cases ht
+  have hs := relateImpl_never_panics (.point p) b rfl hz rfl hc
+  have h1 : relateImpl (.point p) b = relateSpec (.point p) b := by
+    obtain ⟨m, hm⟩ := Option.isSome_iff_exists.1 hs
+    unfold relateImpl
+    rw [hm]
+    exact relateImpl_point_lineType_eq_spec_partial p b hd ht hm
+  refine ⟨h1, ?_⟩
+  rw [relateImpl_transpose_closed (.point p) b rfl hz rfl hc, h1, relateSpec_transpose (.point p) b]
+
+/-- a point on, at the end of, and away from an open line string with a corner: the whole matrices -/
+example : relateImpl (.point ⟨4, 1⟩) (.lineString [⟨0, 0⟩, ⟨4, 0⟩, ⟨4, 3⟩]) =
+    relateSpec (.point ⟨4, 1⟩) (.lineString [⟨0, 0⟩, ⟨4, 0⟩, ⟨4, 3⟩]) :=
+  (relateImpl_point_lineType_eq_spec_total_partial _ _ (by decide +kernel) rfl).1
+
+example : relateImpl (.lineString [⟨0, 0⟩, ⟨4, 0⟩, ⟨4, 3⟩]) (.point ⟨4, 3⟩) =
+    relateSpec (.lineString [⟨0, 0⟩, ⟨4, 0⟩, ⟨4, 3⟩]) (.point ⟨4, 3⟩) :=
+  (relateImpl_point_lineType_eq_spec_total_partial _ _ (by decide +kernel) rfl).2
+
+example : relateImpl (.point ⟨9, 9⟩) (.multiLineString [[⟨0, 0⟩, ⟨1, 0⟩], [⟨1, 0⟩, ⟨1, 1⟩], [⟨1, 0⟩, ⟨2, 0⟩]]) =
+    relateSpec (.point ⟨9, 9⟩) (.multiLineString [[⟨0, 0⟩, ⟨1, 0⟩], [⟨1, 0⟩, ⟨1, 1⟩], [⟨1, 0⟩, ⟨2, 0⟩]]) :=
+  (relateImpl_point_lineType_eq_spec_total_partial _ _ (by decide +kernel) rfl).1
+
+/-! ### the Exterior row for areal `B` -/
+
+/-- [T] **the Exterior row of `relate(Point p, B)` in the model of the implementation, for a `B` all of whose edges are
+ring edges** (`area(OnBoundary, l, r)`, `{l, r} = {Inside, Outside}`; any arithmetic, `B` valid or not): `EI = 2`,
+`EB = 1` as soon as `B` has an edge — every ring edge is isolated from the point and contributes (1, E, B), (2, E, I),
+(2, E, E); the bundles of the stars get full area labels whose sides are `Inside` / `Outside` (`compute_label_side`
+returns nothing else), so no two-dimensional contribution lands on the boundary of `B`. -/
+theorem relateImpl_point_exterior_row_ringEdges (ar : Arith) (p : Pt) (b : Geom)
+    (hE : ∀ e ∈ (freshGraph ar 1 b).edges, AreaLbl e.label) (hne : (freshGraph ar 1 b).edges ≠ [])
+    {m : IM} (h : relateGraph ar (.point p) b = some m) :
+    m.get .outside .inside = .two ∧ m.get .outside .onBoundary = .one :=
+  point_ext_row_areal ar p b hE hne h
+
+/-- a polygon with a hole (an areal operand: `fresh_edges_area`) -/
+example : ∀ m, relateGraph Arith.exact (.point ⟨2, 0⟩)
+      (.polygon ⟨[⟨0, 0⟩, ⟨4, 0⟩, ⟨4, 4⟩, ⟨0, 4⟩, ⟨0, 0⟩], [[⟨2, 0⟩, ⟨3, 2⟩, ⟨1, 2⟩, ⟨2, 0⟩]]⟩) = some m →
+    m.get .outside .inside = .two ∧ m.get .outside .onBoundary = .one :=
+  fun m h => relateImpl_point_exterior_row_ringEdges _ _ _ (fresh_edges_area _ _ rfl) (by decide +kernel) h
+
+/-- [T] **the Exterior row of the specification for `Point × B` from `DimsSpec B`**: against a point operand a row
+maximum of dimension ≥ 1 is attained in the column Exterior (the columns Interior / Boundary of a point hold
+dimension 0 at most), so `EI = dim B` and `EB = dim ∂B` whenever these are ≥ 1. -/
+theorem relateSpec_point_exterior_row_of_dimsSpec (p : Pt) (b : Geom) (db : Spec.DimsSpec b) :
+    (Dim.zero.rank < (dims b).rank → (relateSpec (.point p) b).get .outside .inside = dims b) ∧
+    (Dim.zero.rank < (boundaryDims b).rank → (relateSpec (.point p) b).get .outside .onBoundary = boundaryDims b) :=
+  spec_ext_row_of_dimsSpec p b db
+
+example : (relateSpec (.point ⟨1, 1⟩) (.rect ⟨0, 0⟩ ⟨4, 2⟩)).get .outside .onBoundary = .one :=
+  (relateSpec_point_exterior_row_of_dimsSpec _ _ (dimsSpec_rect _ _ (by norm_num) (by norm_num))).2 (by decide +kernel)
+
+/-- [T] **`relate(Point p, B) = relateSpec (Point p) B`, the whole matrix, on the graph path, for every areal `B` of the
+domain** (Polygon with holes, MultiPolygon, Rect, Triangle, collections of pairwise disjoint areal members) **of
+dimension 2 whose `HasDimensions` answers are the specification's row maxima**. Full statement (no `DimsSpec`): needs
+an interior face sample of a valid polygon (S2 type; `dimsSpec_polygon_partial`); Rect and Triangle have it, below. -/
+theorem relateImpl_point_areal_graph_eq_spec_partial (p : Pt) (b : Geom) (hd : inDomain b = true) (ha : arOk b = true)
+    (db : Spec.DimsSpec b) (h2 : dims b = .two) (h1 : boundaryDims b = .one)
+    (hne : (freshGraph Arith.exact 1 b).edges ≠ []) {m : IM}
+    (h : relateGraph Arith.exact (.point p) b = some m) : m = relateSpec (.point p) b :=
+  point_areal_full p b hd ha db h2 h1 hne h
+
+/-- a polygon with a hole touching the shell, against the touch point: the whole matrix, given the interior face sample -/
+example (hi : Spec.HasInteriorSample (parts (.polygon ⟨[⟨0, 0⟩, ⟨4, 0⟩, ⟨4, 4⟩, ⟨0, 4⟩, ⟨0, 0⟩], [[⟨2, 0⟩, ⟨3, 2⟩, ⟨1, 2⟩, ⟨2, 0⟩]]⟩))) :
+    ∀ m, relateGraph Arith.exact (.point ⟨2, 0⟩)
+      (.polygon ⟨[⟨0, 0⟩, ⟨4, 0⟩, ⟨4, 4⟩, ⟨0, 4⟩, ⟨0, 0⟩], [[⟨2, 0⟩, ⟨3, 2⟩, ⟨1, 2⟩, ⟨2, 0⟩]]⟩) = some m →
+    m = relateSpec (.point ⟨2, 0⟩) (.polygon ⟨[⟨0, 0⟩, ⟨4, 0⟩, ⟨4, 4⟩, ⟨0, 4⟩, ⟨0, 0⟩], [[⟨2, 0⟩, ⟨3, 2⟩, ⟨1, 2⟩, ⟨2, 0⟩]]⟩) :=
+  fun m h => relateImpl_point_areal_graph_eq_spec_partial _ _ (by decide +kernel) rfl
+    (dimsSpec_polygon_partial _ (by decide +kernel) hi) (by decide +kernel) (by decide +kernel) (by decide +kernel) h
+
+/-- Line, LineString, MultiLineString, Rect, Triangle -/
+def fullMatrixType (b : Geom) : Bool := lineType b || boxType b
+
+/-- [T] **`relateImpl (Point p) B = relateSpec (Point p) B` and `relateImpl B (Point p) = relateSpec B (Point p)` —
+whole matrix, both paths, total function, no further hypothesis — for `B` a Line, LineString, MultiLineString, Rect or
+Triangle of the validity domain.** Full statement (every `B` of the domain): Polygon / MultiPolygon need `DimsSpec`
+(an interior face sample), collections need `DimsSpec` on the shortcut path and "an envelope implies an edge". -/
+theorem relateImpl_point_eq_spec_total_partial (p : Pt) (b : Geom) (hd : inDomain b = true)
+    (ht : fullMatrixType b = true) :
+    relateImpl (.point p) b = relateSpec (.point p) b ∧ relateImpl b (.point p) = relateSpec b (.point p) := by
+  simp only [fullMatrixType, Bool.or_eq_true] at ht
+  rcases ht with ht | ht
+  · exact relateImpl_point_lineType_eq_spec_total_partial p b hd ht
+  · have hz : noZeroLine b = true := by cases b <;> first | rfl | cases ht
+    have hc : ringsClosed b = true := by cases b <;> first | rfl | cases ht
+    have hnp : noPolygonType b = true := by cases b <;> first | rfl | cases ht
+    have hs := relateImpl_never_panics (.point p) b rfl hz rfl hc
+    have h1 : relateImpl (.point p) b = relateSpec (.point p) b := by
+      obtain ⟨m, hm⟩ := Option.isSome_iff_exists.1 hs
+      unfold relateImpl
+      rw [hm]
+      show m = relateSpec (.point p) b
+      cases henv : envelopesMeet (.point p) b with
+      | true =>
+        have hg : relateGraph Arith.exact (.point p) b = some m := by
+          unfold relateImpl? relateImplWith at hm
+          rw [henv, if_pos rfl] at hm
+          exact hm
+        exact point_boxType_graph p b hd ht hg
+      | false =>
+        have := relateImpl_disjoint_eq_spec_noPolygon_partial Arith.exact (a := .point p) (b := b) rfl hd rfl hnp henv
+        unfold relateImpl? at hm
+        rw [this] at hm
+        exact (Option.some.inj hm).symm
+    refine ⟨h1, ?_⟩
+    rw [relateImpl_transpose_closed (.point p) b rfl hz rfl hc, h1, relateSpec_transpose (.point p) b]
+
+/-- a point at a vertex of, on an edge of, inside and outside a triangle; a rectangle against its corner -/
+example : relateImpl (.point ⟨4, 0⟩) (.triangle ⟨0, 0⟩ ⟨4, 0⟩ ⟨0, 4⟩) = relateSpec (.point ⟨4, 0⟩) (.triangle ⟨0, 0⟩ ⟨4, 0⟩ ⟨0, 4⟩) :=
+  (relateImpl_point_eq_spec_total_partial _ _ (by decide +kernel) rfl).1
+example : relateImpl (.point ⟨2, 2⟩) (.triangle ⟨0, 0⟩ ⟨4, 0⟩ ⟨0, 4⟩) = relateSpec (.point ⟨2, 2⟩) (.triangle ⟨0, 0⟩ ⟨4, 0⟩ ⟨0, 4⟩) :=
+  (relateImpl_point_eq_spec_total_partial _ _ (by decide +kernel) rfl).1
+example : relateImpl (.point ⟨1, 1⟩) (.triangle ⟨0, 0⟩ ⟨4, 0⟩ ⟨0, 4⟩) = relateSpec (.point ⟨1, 1⟩) (.triangle ⟨0, 0⟩ ⟨4, 0⟩ ⟨0, 4⟩) :=
+  (relateImpl_point_eq_spec_total_partial _ _ (by decide +kernel) rfl).1
+example : relateImpl (.rect ⟨0, 0⟩ ⟨4, 2⟩) (.point ⟨4, 2⟩) = relateSpec (.rect ⟨0, 0⟩ ⟨4, 2⟩) (.point ⟨4, 2⟩) :=
+  (relateImpl_point_eq_spec_total_partial _ _ (by decide +kernel) rfl).2
+
+/-! ### `DimsSpec` for valid polygons; `Point × B` for every simple type of `B` -/
+
+/-- [T] **`HasDimensions` of a polygon whose shell is a simple ring is 2** (`Polygon::dimensions` looks for three
+different coordinates at the head of the shell; two consecutive edges of a simple ring meet in their common vertex
+only, so the third distinct vertex is not the first). -/
+theorem polyDims_valid (q : Poly) (hv : polyValid q = true) : dims (.polygon q) = .two :=
+  polyDims_of_simple (Geo.Proofs.C02Q.polyValid_unpack hv).1
+
+example : dims (.polygon ⟨[⟨0, 0⟩, ⟨0, 0⟩, ⟨4, 0⟩, ⟨4, 0⟩, ⟨0, 4⟩, ⟨0, 0⟩], []⟩) = .two :=
+  polyDims_valid _ (by decide +kernel)
+
+/-- [T] **an OGC-valid polygon has an interior face sample in every arrangement** (S2 for valid polygons, holes
+included): beside an elementary sub-segment of the shell, on the side C02X `valid_side_inside` finds interior. This is
+the hypothesis `hi` of `dimsSpec_polygon_partial`. -/
+theorem polygon_interior_sample_valid (q : Poly) (hv : polyValid q = true) :
+    Spec.HasInteriorSample (parts (.polygon q)) := hasInteriorSample_polygon q hv
+
+example : Spec.HasInteriorSample (parts (.polygon ⟨[⟨0, 0⟩, ⟨4, 0⟩, ⟨4, 4⟩, ⟨0, 4⟩, ⟨0, 0⟩], [[⟨1, 1⟩, ⟨2, 1⟩, ⟨2, 2⟩, ⟨1, 1⟩]]⟩)) :=
+  polygon_interior_sample_valid _ (by decide +kernel)
+
+/-- [T] **`DimsSpec` for every operand of the validity domain that is not a GeometryCollection** — valid Polygon with
+holes, valid MultiPolygon (interior sample in the first member, boundary sample through `multiPolygon_members_apart`),
+the empty Polygon / MultiPolygon (no point at all), and the types of `dimsSpec_dom_partial`. Full statement (every
+operand of the domain): open for collections (`DimsSpec` speaks about `dims (collection)`, a maximum over members). -/
+theorem dimsSpec_dom_noCollection_partial (b : Geom) (hd : inDomain b = true) (ht : notCollection b = true) :
+    Spec.DimsSpec b := dimsSpec_dom_noCollection b hd ht
+
+example : Spec.DimsSpec (.multiPolygon [⟨[⟨0, 0⟩, ⟨4, 0⟩, ⟨4, 4⟩, ⟨0, 4⟩, ⟨0, 0⟩], [[⟨1, 1⟩, ⟨2, 1⟩, ⟨2, 2⟩, ⟨1, 1⟩]]⟩,
+    ⟨[⟨4, 4⟩, ⟨8, 4⟩, ⟨8, 8⟩, ⟨4, 8⟩, ⟨4, 4⟩], []⟩]) :=
+  dimsSpec_dom_noCollection_partial _ (by decide +kernel) rfl
+
+/-- [T] **the disjoint-envelope shortcut returns the specification's matrix — the whole matrix — for any two operands
+of the validity domain that are not GeometryCollections** (any arithmetic): no `DimsSpec` hypothesis left. -/
+theorem relateImpl_disjoint_eq_spec_noCollection_partial (ar : Arith) {a b : Geom} (ha : inDomain a = true)
+    (hb : inDomain b = true) (hta : notCollection a = true) (htb : notCollection b = true)
+    (h : envelopesMeet a b = false) : relateImplWith ar a b = some (relateSpec a b) :=
+  relateImpl_disjoint_eq_spec_dom_partial ar ha hb h (dimsSpec_dom_noCollection a ha hta) (dimsSpec_dom_noCollection b hb htb)
+
+/-- a polygon with a hole against a far triangle: no hypothesis left -/
+example : relateImpl? (.polygon ⟨[⟨0, 0⟩, ⟨4, 0⟩, ⟨4, 4⟩, ⟨0, 4⟩, ⟨0, 0⟩], [[⟨1, 1⟩, ⟨2, 1⟩, ⟨2, 2⟩, ⟨1, 1⟩]]⟩)
+      (.triangle ⟨6, 0⟩ ⟨8, 0⟩ ⟨6, 3⟩) =
+    some (relateSpec (.polygon ⟨[⟨0, 0⟩, ⟨4, 0⟩, ⟨4, 4⟩, ⟨0, 4⟩, ⟨0, 0⟩], [[⟨1, 1⟩, ⟨2, 1⟩, ⟨2, 2⟩, ⟨1, 1⟩]]⟩)
+      (.triangle ⟨6, 0⟩ ⟨8, 0⟩ ⟨6, 3⟩)) :=
+  relateImpl_disjoint_eq_spec_noCollection_partial _ (by decide +kernel) (by decide +kernel) rfl rfl (by decide +kernel)
+
+/-- Line, LineString, MultiLineString, Polygon, MultiPolygon, Rect, Triangle -/
+def extendedType (b : Geom) : Bool := lineType b || boxType b || polyType b
+
+/-- [T] **`relateImpl (Point p) B = relateSpec (Point p) B` and `relateImpl B (Point p) = relateSpec B (Point p)` — the
+whole matrix, both paths of `compute_intersection_matrix`, the total function, no hypothesis but the validity domain —
+for `B` a Line, LineString, MultiLineString, Polygon (holes, holes touching the shell), MultiPolygon (members touching
+at points), Rect or Triangle.** The model of the implementation of `relate`, checked against the real code on every
+run, is PROVED equal to the DE-9IM specification for a point against every such geometry.
+Full statement (every `B` of the domain): open for `B` a Point / MultiPoint written as another type than the first
+operand (rows proved, Exterior row not), and for GeometryCollections (rows proved for one-kind collections; `DimsSpec`
+of a collection and "an envelope implies an edge" missing). -/
+theorem relateImpl_point_eq_spec_extendedType_partial (p : Pt) (b : Geom) (hd : inDomain b = true)
+    (ht : extendedType b = true) :
+    relateImpl (.point p) b = relateSpec (.point p) b ∧ relateImpl b (.point p) = relateSpec b (.point p) := by
+  simp only [extendedType, Bool.or_eq_true] at ht
+  rcases ht with ht | ht
+  · exact relateImpl_point_eq_spec_total_partial p b hd (by simpa [fullMatrixType] using ht)
+  · have hz : noZeroLine b = true := by cases b <;> first | rfl | cases ht
+    have hc : ringsClosed b = true := ringsClosed_of_dom hd ht
+    have hnc : notCollection b = true := by cases b <;> first | rfl | cases ht
+    have hs := relateImpl_never_panics (.point p) b rfl hz rfl hc
+    have h1 : relateImpl (.point p) b = relateSpec (.point p) b := by
+      obtain ⟨m, hm⟩ := Option.isSome_iff_exists.1 hs
+      unfold relateImpl
+      rw [hm]
+      show m = relateSpec (.point p) b
+      cases henv : envelopesMeet (.point p) b with
+      | true =>
+        have hg : relateGraph Arith.exact (.point p) b = some m := by
+          unfold relateImpl? relateImplWith at hm
+          rw [henv, if_pos rfl] at hm
+          exact hm
+        exact point_polyType_graph p b hd ht henv hg
+      | false =>
+        have := relateImpl_disjoint_eq_spec_noCollection_partial Arith.exact (a := .point p) (b := b) rfl hd rfl hnc henv
+        unfold relateImpl? at hm
+        rw [this] at hm
+        exact (Option.some.inj hm).symm
+    refine ⟨h1, ?_⟩
+    rw [relateImpl_transpose_closed (.point p) b rfl hz rfl hc, h1, relateSpec_transpose (.point p) b]
+
+/-- the point where a hole touches the shell, a point in the hole, a point shared by two members of a MultiPolygon -/
+example : relateImpl (.point ⟨2, 0⟩) (.polygon ⟨[⟨0, 0⟩, ⟨4, 0⟩, ⟨4, 4⟩, ⟨0, 4⟩, ⟨0, 0⟩], [[⟨2, 0⟩, ⟨3, 2⟩, ⟨1, 2⟩, ⟨2, 0⟩]]⟩) =
+    relateSpec (.point ⟨2, 0⟩) (.polygon ⟨[⟨0, 0⟩, ⟨4, 0⟩, ⟨4, 4⟩, ⟨0, 4⟩, ⟨0, 0⟩], [[⟨2, 0⟩, ⟨3, 2⟩, ⟨1, 2⟩, ⟨2, 0⟩]]⟩) :=
+  (relateImpl_point_eq_spec_extendedType_partial _ _ (by decide +kernel) rfl).1
+
+example : relateImpl (.point ⟨2, 1⟩) (.polygon ⟨[⟨0, 0⟩, ⟨4, 0⟩, ⟨4, 4⟩, ⟨0, 4⟩, ⟨0, 0⟩], [[⟨2, 0⟩, ⟨3, 2⟩, ⟨1, 2⟩, ⟨2, 0⟩]]⟩) =
+    relateSpec (.point ⟨2, 1⟩) (.polygon ⟨[⟨0, 0⟩, ⟨4, 0⟩, ⟨4, 4⟩, ⟨0, 4⟩, ⟨0, 0⟩], [[⟨2, 0⟩, ⟨3, 2⟩, ⟨1, 2⟩, ⟨2, 0⟩]]⟩) :=
+  (relateImpl_point_eq_spec_extendedType_partial _ _ (by decide +kernel) rfl).1
+
+example : relateImpl (.multiPolygon [⟨[⟨0, 0⟩, ⟨4, 0⟩, ⟨4, 4⟩, ⟨0, 4⟩, ⟨0, 0⟩], []⟩, ⟨[⟨4, 4⟩, ⟨8, 4⟩, ⟨8, 8⟩, ⟨4, 8⟩, ⟨4, 4⟩], []⟩])
+      (.point ⟨4, 4⟩) =
+    relateSpec (.multiPolygon [⟨[⟨0, 0⟩, ⟨4, 0⟩, ⟨4, 4⟩, ⟨0, 4⟩, ⟨0, 0⟩], []⟩, ⟨[⟨4, 4⟩, ⟨8, 4⟩, ⟨8, 8⟩, ⟨4, 8⟩, ⟨4, 4⟩], []⟩])
+      (.point ⟨4, 4⟩) :=
+  (relateImpl_point_eq_spec_extendedType_partial _ _ (by decide +kernel) rfl).2
+
+/-! ### `Point × MultiPoint`; `Point × B` for every `B` that is not a GeometryCollection -/
+
+/-- [T] **`relate(Point p, MultiPoint qs) = relateSpec`, the whole matrix, on the graph path** (any arithmetic, any
+coordinate list): `B` has no edge; the nodes of `B` away from `p` contribute (0, E, I), nothing lands on a boundary. -/
+theorem relateImpl_point_multiPoint_graph (ar : Arith) (p : Pt) (qs : List Pt) {m : IM}
+    (h : relateGraph ar (.point p) (.multiPoint qs) = some m) : m = relateSpec (.point p) (.multiPoint qs) :=
+  point_multiPoint_graph ar p qs h
+
+example : ∀ m, relateGraph Arith.exact (.point ⟨1, 1⟩) (.multiPoint [⟨0, 0⟩, ⟨1, 1⟩, ⟨1, 1⟩, ⟨2, 2⟩]) = some m →
+    m = relateSpec (.point ⟨1, 1⟩) (.multiPoint [⟨0, 0⟩, ⟨1, 1⟩, ⟨1, 1⟩, ⟨2, 2⟩]) :=
+  fun _ h => relateImpl_point_multiPoint_graph _ _ _ h
+
+/-- [T] **`relateImpl (Point p) B = relateSpec (Point p) B` and `relateImpl B (Point p) = relateSpec B (Point p)` for
+EVERY `B` of the validity domain that is not a GeometryCollection** — Point, MultiPoint, Line, LineString,
+MultiLineString, Polygon, MultiPolygon, Rect, Triangle; the whole matrix, both paths, the total function. The only
+hypothesis is the property's own domain.
+Full statement (collections too): rows / columns Interior and Boundary are proved for one-kind collections
+(`relateImpl_point_rows_eq_spec_allTypes_partial`), the whole matrix on the graph path for collections of linear members
+(`relateImpl_point_linear_graph_eq_spec`); missing: `DimsSpec` of a collection (shortcut path), the Exterior row of
+areal / point collections, collections mixing kinds (only with empty members). -/
+theorem relateImpl_point_eq_spec_noCollection_partial (p : Pt) (b : Geom) (hd : inDomain b = true)
+    (ht : notCollection b = true) :
+    relateImpl (.point p) b = relateSpec (.point p) b ∧ relateImpl b (.point p) = relateSpec b (.point p) := by
+  have key : ∀ (hz : noZeroLine b = true) (hc : ringsClosed b = true),
+      (envelopesMeet (.point p) b = true →
+        ∀ m, relateGraph Arith.exact (.point p) b = some m → m = relateSpec (.point p) b) →
+      relateImpl (.point p) b = relateSpec (.point p) b ∧ relateImpl b (.point p) = relateSpec b (.point p) := by
+    intro hz hc hgraph
+    have hs := relateImpl_never_panics (.point p) b rfl hz rfl hc
+    have h1 : relateImpl (.point p) b = relateSpec (.point p) b := by
+      obtain ⟨m, hm⟩ := Option.isSome_iff_exists.1 hs
+      unfold relateImpl
+      rw [hm]
+      show m = relateSpec (.point p) b
+      cases henv : envelopesMeet (.point p) b with
+      | true =>
+        apply hgraph henv
+        unfold relateImpl? relateImplWith at hm
+        rw [henv, if_pos rfl] at hm
+        exact hm
+      | false =>
+        have := relateImpl_disjoint_eq_spec_noCollection_partial Arith.exact (a := .point p) (b := b) rfl hd rfl ht henv
+        unfold relateImpl? at hm
+        rw [this] at hm
+        exact (Option.some.inj hm).symm
+    exact ⟨h1, by rw [relateImpl_transpose_closed (.point p) b rfl hz rfl hc, h1, relateSpec_transpose (.point p) b]⟩
+  cases b with
+  | point q =>
+    apply key rfl rfl
+    intro henv m hm
+    have h0 := relateImpl_point_point Arith.exact p q
+    unfold relateImplWith at h0
+    rw [henv, if_pos rfl, hm] at h0
+    exact Option.some.inj h0
+  | multiPoint qs => exact key rfl rfl (fun _ m hm => relateImpl_point_multiPoint_graph _ p qs hm)
+  | collection _ => cases ht
+  | line a c => exact relateImpl_point_eq_spec_extendedType_partial p _ hd rfl
+  | lineString cs => exact relateImpl_point_eq_spec_extendedType_partial p _ hd rfl
+  | multiLineString ls => exact relateImpl_point_eq_spec_extendedType_partial p _ hd rfl
+  | polygon q => exact relateImpl_point_eq_spec_extendedType_partial p _ hd rfl
+  | multiPolygon ps => exact relateImpl_point_eq_spec_extendedType_partial p _ hd rfl
+  | rect mn mx => exact relateImpl_point_eq_spec_extendedType_partial p _ hd rfl
+  | triangle a c e => exact relateImpl_point_eq_spec_extendedType_partial p _ hd rfl
+
+/-- a MultiPoint with a repeated point against one of its points; a polygon with a hole against a point in the hole;
+an empty LineString -/
+example : relateImpl (.point ⟨1, 1⟩) (.multiPoint [⟨0, 0⟩, ⟨1, 1⟩, ⟨1, 1⟩]) =
+    relateSpec (.point ⟨1, 1⟩) (.multiPoint [⟨0, 0⟩, ⟨1, 1⟩, ⟨1, 1⟩]) :=
+  (relateImpl_point_eq_spec_noCollection_partial _ _ rfl rfl).1
+
+example : relateImpl (.polygon ⟨[⟨0, 0⟩, ⟨4, 0⟩, ⟨4, 4⟩, ⟨0, 4⟩, ⟨0, 0⟩], [[⟨1, 1⟩, ⟨2, 1⟩, ⟨2, 2⟩, ⟨1, 1⟩]]⟩) (.point ⟨7/4, 5/4⟩) =
+    relateSpec (.polygon ⟨[⟨0, 0⟩, ⟨4, 0⟩, ⟨4, 4⟩, ⟨0, 4⟩, ⟨0, 0⟩], [[⟨1, 1⟩, ⟨2, 1⟩, ⟨2, 2⟩, ⟨1, 1⟩]]⟩) (.point ⟨7/4, 5/4⟩) :=
+  (relateImpl_point_eq_spec_noCollection_partial _ _ (by decide +kernel) rfl).2
+
+example : relateImpl (.point ⟨1, 1⟩) (.lineString []) = relateSpec (.point ⟨1, 1⟩) (.lineString []) :=
+  (relateImpl_point_eq_spec_noCollection_partial _ _ rfl rfl).1
+
+/-- [T] **GeometryCollections of linear members, or of point members (nested ones included): `relate(Point p, B) =
+relateSpec (Point p) B`, the whole matrix, on the graph path** (a linear collection with a bounding rectangle has an
+edge: `long_of_boundingRect_lin`). Full statement (both paths, areal and mixed collections): needs `DimsSpec` of a
+collection for the shortcut path and for the Exterior row of areal collections. -/
+theorem relateImpl_point_collection_graph_eq_spec_partial (p : Pt) (b : Geom) (hd : inDomain b = true)
+    (hk : linOk b = true ∨ ptOk b = true) (henv : envelopesMeet (.point p) b = true) {m : IM}
+    (h : relateGraph Arith.exact (.point p) b = some m) : m = relateSpec (.point p) b := by
+  rcases hk with hk | hk
+  · exact point_linOk_graph p b hd hk henv h
+  · exact point_ptOk_graph _ p b hd hk h
+
+/-- a collection of a segment and a line string against the end point of the segment; a collection of points -/
+example : ∀ m, relateGraph Arith.exact (.point ⟨4, 0⟩)
+      (.collection [.line ⟨0, 0⟩ ⟨4, 0⟩, .collection [.lineString [⟨5, 0⟩, ⟨5, 3⟩, ⟨6, 3⟩]]]) = some m →
+    m = relateSpec (.point ⟨4, 0⟩) (.collection [.line ⟨0, 0⟩ ⟨4, 0⟩, .collection [.lineString [⟨5, 0⟩, ⟨5, 3⟩, ⟨6, 3⟩]]]) :=
+  fun _ h => relateImpl_point_collection_graph_eq_spec_partial _ _ (by decide +kernel) (Or.inl rfl) (by decide +kernel) h
+
+example : ∀ m, relateGraph Arith.exact (.point ⟨1, 1⟩)
+      (.collection [.point ⟨0, 0⟩, .multiPoint [⟨1, 1⟩, ⟨2, 2⟩]]) = some m →
+    m = relateSpec (.point ⟨1, 1⟩) (.collection [.point ⟨0, 0⟩, .multiPoint [⟨1, 1⟩, ⟨2, 2⟩]]) :=
+  fun _ h => relateImpl_point_collection_graph_eq_spec_partial _ _ (by decide +kernel) (Or.inr rfl) (by decide +kernel) h
+
+/-! ### Line × Line and linear × linear: the cells of the specification that involve a boundary -/
+
+/-- [T] **linear × linear (any two lists of curves — Line, LineString, MultiLineString operands): every cell with a
+boundary in it — IB, BI, BB, BE, EB — is `0` exactly when some point has that pair of locations, `F` otherwise**
+(`cell_complete` for these five cells: a boundary point of a linear operand is an end point of a curve, hence a vertex
+of the arrangement; an elementary midpoint is not a vertex; face samples are outside of linear operands). -/
+theorem relateSpec_linear_boundary_cells (ls ms : List (List Pt)) (X Y : Pos) (hXY : X = .onBoundary ∨ Y = .onBoundary) :
+    ((relateSpec (.multiLineString ls) (.multiLineString ms)).get X Y = .zero ↔
+      ∃ v, locate (.multiLineString ls) v = X ∧ locate (.multiLineString ms) v = Y) ∧
+    ((relateSpec (.multiLineString ls) (.multiLineString ms)).get X Y = .empty ↔
+      ¬ ∃ v, locate (.multiLineString ls) v = X ∧ locate (.multiLineString ms) v = Y) :=
+  linear_cell_boundary_zero ls ms X Y hXY
+
+/-- two line strings meeting at an end point of both: BB = 0 -/
+example : (relateSpec (.multiLineString [[⟨0, 0⟩, ⟨2, 0⟩]]) (.multiLineString [[⟨2, 0⟩, ⟨2, 2⟩]])).get .onBoundary .onBoundary = .zero :=
+  (relateSpec_linear_boundary_cells _ _ _ _ (Or.inl rfl)).1.2 ⟨⟨2, 0⟩, by decide +kernel, by decide +kernel⟩
+
+/-- [T] **Line × Line, the cells BB, IB, BI, BE, EB** (non-degenerate segments; with II — `relateSpec_line_line_ii`,
+`relateSpec_line_line_ii_one` — and `EE = 2` seven of the nine cells; IE / EI: `relateSpec_line_line_exterior_cells`
+below): BB = 0 iff the segments share an end point; IB = 0 iff an end point of the
+second lies in the open first segment (BI: transposed); BE = 0 iff an end point of the first is off the second (EB:
+transposed); `F` otherwise. -/
+theorem relateSpec_line_line_boundary_cells (a b c d : Pt) (hab : a ≠ b) (hcd : c ≠ d) :
+    (((relateSpec (.line a b) (.line c d)).bb = .zero ↔ (a = c ∨ a = d ∨ b = c ∨ b = d)) ∧
+      ((relateSpec (.line a b) (.line c d)).bb = .empty ↔ ¬ (a = c ∨ a = d ∨ b = c ∨ b = d))) ∧
+    (((relateSpec (.line a b) (.line c d)).ib = .zero ↔ (Spec.SegInt c a b ∨ Spec.SegInt d a b)) ∧
+      ((relateSpec (.line a b) (.line c d)).ib = .empty ↔ ¬ (Spec.SegInt c a b ∨ Spec.SegInt d a b))) ∧
+    (((relateSpec (.line a b) (.line c d)).bi = .zero ↔ (Spec.SegInt a c d ∨ Spec.SegInt b c d)) ∧
+      ((relateSpec (.line a b) (.line c d)).bi = .empty ↔ ¬ (Spec.SegInt a c d ∨ Spec.SegInt b c d))) ∧
+    (((relateSpec (.line a b) (.line c d)).be = .zero ↔
+        (locate (.line c d) a = .outside ∨ locate (.line c d) b = .outside)) ∧
+      ((relateSpec (.line a b) (.line c d)).be = .empty ↔
+        ¬ (locate (.line c d) a = .outside ∨ locate (.line c d) b = .outside))) ∧
+    (((relateSpec (.line a b) (.line c d)).eb = .zero ↔
+        (locate (.line a b) c = .outside ∨ locate (.line a b) d = .outside)) ∧
+      ((relateSpec (.line a b) (.line c d)).eb = .empty ↔
+        ¬ (locate (.line a b) c = .outside ∨ locate (.line a b) d = .outside))) := by
+  have ht : relateSpec (.line a b) (.line c d) = (relateSpec (.line c d) (.line a b)).transpose :=
+    relateSpec_transpose (.line c d) (.line a b)
+  refine ⟨line_line_bb a b c d hab hcd, line_line_ib a b c d hab hcd, ?_, line_line_be a b c d hab, ?_⟩
+  · have h1 : ∀ m : IM, m.transpose.bi = m.ib := fun _ => rfl
+    rw [ht, h1]
+    exact line_line_ib c d a b hcd hab
+  · have h1 : ∀ m : IM, m.transpose.eb = m.be := fun _ => rfl
+    rw [ht, h1]
+    exact line_line_be c d a b hcd
+
+/-- a T junction: the end point (1, 0) of the second segment lies in the open first segment -/
+example : (relateSpec (.line ⟨0, 0⟩ ⟨2, 0⟩) (.line ⟨1, 0⟩ ⟨1, 2⟩)).ib = .zero :=
+  (relateSpec_line_line_boundary_cells _ _ _ _ (by simp) (by simp)).2.1.1.2
+    (Or.inl ⟨⟨1/2, by norm_num, by norm_num, by norm_num, by norm_num⟩, by simp, by simp⟩)
+
+/-- [T] **Line × Line, the cells IE, EI, EE — all nine cells of the specification for two non-degenerate segments are
+now characterised by point-set conditions** (`cell_complete` for Line × Line): IE = 1 iff some point of the open first
+segment is off the second (never 0: such a point is not a vertex of the arrangement — the vertices are the four end
+points and the single intersection point — so the midpoint of its elementary sub-segment has the same two locations,
+C02X `locate_const`), `F` otherwise; EI: transposed; EE = 2. -/
+theorem relateSpec_line_line_exterior_cells (a b c d : Pt) (hab : a ≠ b) (hcd : c ≠ d) :
+    (((relateSpec (.line a b) (.line c d)).ie = .one ↔ ∃ x, Spec.SegInt x a b ∧ ¬ Geo.Proofs.Kernel.SegMem x c d) ∧
+      ((relateSpec (.line a b) (.line c d)).ie = .empty ↔ ¬ ∃ x, Spec.SegInt x a b ∧ ¬ Geo.Proofs.Kernel.SegMem x c d)) ∧
+    (((relateSpec (.line a b) (.line c d)).ei = .one ↔ ∃ x, Spec.SegInt x c d ∧ ¬ Geo.Proofs.Kernel.SegMem x a b) ∧
+      ((relateSpec (.line a b) (.line c d)).ei = .empty ↔ ¬ ∃ x, Spec.SegInt x c d ∧ ¬ Geo.Proofs.Kernel.SegMem x a b)) ∧
+    (relateSpec (.line a b) (.line c d)).ee = .two := by
+  have ht : relateSpec (.line a b) (.line c d) = (relateSpec (.line c d) (.line a b)).transpose :=
+    relateSpec_transpose (.line c d) (.line a b)
+  refine ⟨line_line_ie a b c d hab, ?_, ?_⟩
+  · have h1 : ∀ m : IM, m.transpose.ei = m.ie := fun _ => rfl
+    rw [ht, h1]
+    exact line_line_ie c d a b hcd
+  · have : (relateSpec (.line a b) (.line c d)).get .outside .outside = .two := by
+      unfold relateSpec
+      rw [Spec.relateParts_eq, get_set, if_pos ⟨rfl, rfl⟩]
+    exact this
+
+/-- a segment sticking out of another: IE = 1; a sub-segment: IE = F -/
+example : (relateSpec (.line ⟨0, 0⟩ ⟨4, 0⟩) (.line ⟨1, 0⟩ ⟨2, 0⟩)).ie = .one :=
+  (relateSpec_line_line_exterior_cells _ _ _ _ (by simp) (by simp)).1.1.2
+    ⟨⟨3, 0⟩, ⟨⟨3/4, by norm_num, by norm_num, by norm_num, by norm_num⟩, by simp, by simp⟩, by
+      rintro ⟨t, h0, h1, hx, _⟩
+      simp at hx
+      linarith⟩
+
+end Impl3
 
 end Geo.Proofs.C01
